@@ -76,12 +76,15 @@ def oracle(tier, rng, seeds):
         if not f0:
             f0, s0b = effects.preemption_search(rng, dpairs, 200 if tier == 'quick' else 1500, hot=crit, only_hot=True, stop_after=1, busy=effects.global_workload(rng, 90))
             s0['preemption_points'] += s0b['preemption_points']
+        if not f0:
+            f0, s0b = effects.preemption_search(rng, dpairs, 150 if tier == 'quick' else 1000, hot=crit, only_hot=True, stop_after=1, reimport=True)
+            s0['preemption_points'] += s0b['preemption_points']
     f1, s1 = effects.preemption_search(rng, ('auto', pairs, 6 if tier == 'quick' else 30), 60 if tier == 'quick' else 250, hot=crit)
     f1 = f0 + f1
     s1['preemption_points'] += s0['preemption_points']
     s1['directed_pairs'] = len(dpairs); s1['directed_points'] = s0['preemption_points']; s1['hot_functions'] = reach
     for f in f1:
-        fails.append(Failure(f['what'], {'kind': 'preempt', 'A': f['A'], 'B': f['B'], 'k': f['k'], 'warm': f.get('warm', False), 'busy': f.get('busy', [])}))
+        fails.append(Failure(f['what'], {'kind': 'preempt', 'A': f['A'], 'B': f['B'], 'k': f['k'], 'warm': f.get('warm', False), 'busy': f.get('busy', []), 'reimport': f.get('reimport', False)}))
     f2, s2 = effects.thread_soak(rng, 120 if tier == 'quick' else 1000, 8, 2 if tier == 'quick' else 4)
     for f in f2:
         fails.append(Failure(f['what'], {'kind': 'soak', 'call': f['call']}))
@@ -96,7 +99,7 @@ def replay(f):
         B = (d['B'][0], tuple(tuple(x) if isinstance(x, list) and len(x) == 2 and all(isinstance(y, float) for y in x) else x for x in d['B'][1]))
         def _fix(c):
             return (c[0], tuple(tuple(x) if isinstance(x, list) and len(x) == 2 and all(isinstance(y, float) for y in x) else x for x in c[1]))
-        fl, _ = effects.preemption_search(random.Random(0), [(A, B)], 100000, warm=d.get('warm', False), busy=[_fix(c) for c in d.get('busy', [])] or None)
+        fl, _ = effects.preemption_search(random.Random(0), [(A, B)], 100000, warm=d.get('warm', False), busy=[_fix(c) for c in d.get('busy', [])] or None, reimport=d.get('reimport', False))
         return bool(fl)
     fl, _ = effects.thread_soak(random.Random(0), 200)
     return bool(fl)
